@@ -151,6 +151,10 @@ def f4_fresh():
         "deep/2": [clause(C("deep", A("z"), NIL)),
                    clause(C("deep", C("s", V(0)), lst([V(1)], V(2))), and_(call(C("w", V(1))), call(C("deep", V(0), V(2)))))],
         "anon/3": [clause(C("anon", V(900), V(901), V(902)))],
+        # list patterns with several terms before the bar, in heads and bodies
+        "first2/4": [clause(C("first2", lst([V(0), V(1)], V(2)), V(0), V(1), V(2)))],
+        "startsab/1": [clause(C("startsab", lst([A("a"), A("b")], V(900))))],
+        "third/2": [clause(C("third", V(0), V(1)), call(C("=", V(0), lst([V(900), V(901), V(1)], V(902)))))],
         "z/0": [clause(A("z"), call(A("y")))], "y/0": [clause(A("y")), clause(A("y"))],
         "dup/1": [clause(C("dup", A("a"))), clause(C("dup", A("a"))), clause(C("dup", V(0)), and_(call(A("y")), call(C("=", V(0), A("b")))))],
     }
@@ -161,7 +165,10 @@ def f4_fresh():
         return t
     goals = [(C("pair", V(0), V(1)), 2), (C("pair", V(0), V(0)), 1), (C("two", V(0)), 1), (C("deep", s(2), V(0)), 1),
              (C("deep", s(3), V(0)), 1), (C("anon", V(0), V(0), V(1)), 2), (C("anon", A("a"), A("b"), V(0)), 1), (A("z"), 0),
-             (C("dup", V(0)), 1), (C("dup", A("a")), 0), (C("dup", A("b")), 0), (C("w", V(0)), 1)]
+             (C("dup", V(0)), 1), (C("dup", A("a")), 0), (C("dup", A("b")), 0), (C("w", V(0)), 1),
+             (C("first2", lst([A("a"), A("b"), A("c")]), V(0), V(1), V(2)), 3), (C("first2", V(0), A("x"), A("y"), lst([A("z")])), 1),
+             (C("startsab", lst([A("a"), A("b"), A("c")])), 0), (C("startsab", lst([A("b"), A("a"), A("c")])), 0), (C("startsab", V(0)), 1),
+             (C("third", lst([I(1), I(2), I(3), I(4)]), V(0)), 1), (C("third", V(0), A("t")), 1)]
     steps = [[{"op": "load", "e": 1, "script": "P", "ow": True}]]
     for i, (g, qnv) in enumerate(goals):
         steps.append([{"op": "solve", "e": 1, "r": i + 1, "goal": g, "qnv": qnv, "k": 0}])
